@@ -6,28 +6,60 @@ import (
 	"github.com/robfig/soy/data"
 )
 
-// faultWriter fails (and keeps failing) from the Write call on which a fresh symbolic boolean
-// is true; in short mode it accepts only a symbolic number m < len(p) of the bytes of that call.
+// faultWriter injects write failures. mode 0: fails (and keeps failing) from the Write call on
+// which a fresh symbolic boolean is true; mode 1: the same, and the failing call accepts a
+// symbolic number m < len(p) of its bytes (short write); mode 2: a writer with a symbolic
+// capacity c: a write that does not fit accepts what fits and fails, later writes fail unless
+// they are empty (a full disk or a closed pipe accepts an empty write); mode 3: transient: exactly
+// one symbolically chosen call fails, the writer works again afterwards.
 type faultWriter struct {
-	buf    []byte
-	failed bool
-	short  bool
-	calls  int
+	buf       []byte
+	failed    bool
+	atFailure int // len(buf) when the first failure happened
+	short     bool
+	mode      int
+	capacity  int
+	calls     int
+}
+
+func (w *faultWriter) fail(accepted []byte) (int, error) {
+	if !w.failed {
+		w.failed = true
+		w.buf = append(w.buf, accepted...)
+		w.atFailure = len(w.buf)
+		return len(accepted), errVerifWrite
+	}
+	return 0, errVerifWrite
 }
 
 func (w *faultWriter) Write(p []byte) (int, error) {
 	w.calls++
+	switch w.mode {
+	case 2:
+		if len(w.buf)+len(p) <= w.capacity && !(w.failed && len(p) > 0) {
+			w.buf = append(w.buf, p...)
+			return len(p), nil
+		}
+		room := w.capacity - len(w.buf)
+		if room < 0 || w.failed {
+			room = 0
+		}
+		return w.fail(p[:room])
+	case 3:
+		if !w.failed && verifBool() {
+			return w.fail(nil)
+		}
+		w.buf = append(w.buf, p...)
+		return len(p), nil
+	}
 	if w.failed {
 		return 0, errVerifWrite
 	}
 	if verifBool() {
-		w.failed = true
-		if w.short && len(p) > 0 {
-			m := verifChoose(len(p))
-			w.buf = append(w.buf, p[:m]...)
-			return m, errVerifWrite
+		if (w.short || w.mode == 1) && len(p) > 0 {
+			return w.fail(p[:verifChoose(len(p))])
 		}
-		return 0, errVerifWrite
+		return w.fail(nil)
 	}
 	w.buf = append(w.buf, p...)
 	return len(p), nil
@@ -51,24 +83,31 @@ var c12Templates = []string{
 
 var c12Data = []string{"<", "a<b>&c", "", "\"'"}
 
-// H_fault: every failure index of every write, for template t and data d; short selects
-// short-write injection (a prefix of the failing call is accepted).
-func H_fault(t, d int, short bool) {
+// H_fault: every failure point of every write, for template t and data d, under writer mode
+// (see faultWriter).
+func H_fault(t, d, mode int) {
 	tofu := verifMustCompile(c12Templates[t])
 	m := data.Map{"x": data.String(c12Data[d])}
 	var ref bytes.Buffer
 	verifAssert(tofu.NewRenderer("a.t").Execute(&ref, m) == nil, "fault-free render failed")
 	want := ref.String()
-	w := &faultWriter{short: short}
+	w := &faultWriter{mode: mode}
+	if mode == 2 {
+		w.capacity = verifChoose(len(want) + 1)
+	}
 	err := tofu.NewRenderer("a.t").Execute(w, m)
 	got := string(w.buf)
 	verifObserve("accepted", got)
 	verifObserveInt("writes", w.calls)
 	if w.failed {
 		verifAssert(err != nil, "a failed write did not surface as a render error")
+		before := got[:w.atFailure]
+		verifAssert(len(before) <= len(want) && want[:len(before)] == before, "bytes accepted before the failure are not a prefix of the fault-free output")
 	}
 	if err == nil {
 		verifAssert(got == want, "render returned nil but the writer did not accept the whole output")
 	}
-	verifAssert(len(got) <= len(want) && want[:len(got)] == got, "accepted bytes are not a prefix of the fault-free output")
+	if mode != 3 {
+		verifAssert(len(got) <= len(want) && want[:len(got)] == got, "accepted bytes are not a prefix of the fault-free output")
+	}
 }
